@@ -278,6 +278,11 @@ namespace AIToolbox::MDP {
     }
 
     template <IsGenerativeModel M>
+    void Dyna2<M>::setN(const unsigned n) {
+        N = n;
+    }
+
+    template <IsGenerativeModel M>
     void Dyna2<M>::setTolerance(const double t) {
         transientLearning_.setTolerance(t);
         permanentLearning_.setTolerance(t);
